@@ -418,5 +418,39 @@ def register(g):
               '/-- `needs_copy` of boss_sync.rs, translated (outer `none`: the `panic!("Wrong entry type")` arm) -/\n'
               f'def needsCopySrc (c : PCfg) (s d : Details) : Option (Option CopyReason) :=\n  {e_c}\nend Rj.Generated\n')
 
+    def apply_filters_skel():
+        """apply_filters of doer.rs: the early return for the root, the default by the first filter's kind, the assignment loop"""
+        import re as _re
+        d = strip_comments(read('src/doer.rs'))
+        body = fn_body(d, 'apply_filters') or ''
+        val = {'Include': 'true', 'Exclude': 'false'}
+        root = _re.search(r'if\s+path\.is_root\(\)\s*\{\s*return\s+FilterResult::Include\s*;\s*\}', body) is not None
+        m = _re.search(r'let\s+mut\s+result\s*=\s*match\s+filters\.kinds\.get\(0\)\s*\{(.*?)\}\s*;', body, _re.S)
+        dd = {}
+        if m:
+            for a in _re.finditer(r'(Some\(FilterKind::(Include|Exclude)\)|None)\s*=>\s*FilterResult::(Include|Exclude)', m.group(1)):
+                dd[a.group(2) or 'None'] = val[a.group(3)]
+        lp = _re.search(r'for\s+(\w+)\s+in\s+matches\s*\{\s*let\s+(\w+)\s*=\s*filters\.kinds\[\1\]\s*;\s*match\s+\2\s*\{(.*?)\}\s*\}', body, _re.S)
+        aa = {}
+        if lp:
+            for a in _re.finditer(r'FilterKind::(Include|Exclude)\s*=>\s*result\s*=\s*FilterResult::(Include|Exclude)', lp.group(3)):
+                aa[a.group(1)] = val[a.group(2)]
+        matches_ok = _re.search(r'let\s+matches\s*=\s*path\.regex_set_matches\(\s*&filters\.regex_set\s*\)\s*;', body) is not None
+        tail_ok = _re.search(r'\}\s*result\s*\}?\s*$', body.strip()) is not None
+        # nothing else: the statements found account for the whole body
+        rest = body
+        for mm in (m, lp):
+            if mm: rest = rest.replace(mm.group(0), '')
+        rest = _re.sub(r'if\s+path\.is_root\(\)\s*\{\s*return\s+FilterResult::Include\s*;\s*\}', '', rest)
+        rest = _re.sub(r'let\s+matches\s*=\s*path\.regex_set_matches\(\s*&filters\.regex_set\s*\)\s*;', '', rest)
+        rest = _re.sub(r'[{}\s]|result', '', rest)
+        shape = bool(m and lp and len(dd) == 3 and len(aa) == 2 and matches_ok and tail_ok and rest == '')
+        if not shape:
+            status['apply-filters'] = 'apply_filters: shape not recognised / differs from the reference'
+        g = lambda t, k: t.get(k, 'false')
+        b = lambda x: 'true' if x else 'false'
+        write('FilterLoop.lean', 'import RjModel.Model.Regex\nnamespace Rj.Generated\n' +
+              f'def applyFiltersSkel : ApplyFiltersSkel := ⟨{b(root)}, {g(dd, "Include")}, {g(dd, "Exclude")}, {g(dd, "None")}, {g(aa, "Include")}, {g(aa, "Exclude")}, {b(shape)}⟩\nend Rj.Generated\n')
+
     g_ = g
-    return {'decisions': decisions, 'run_skel': run_skel, 'link_socket': link_socket, 'session': session, 'defaults': defaults, 'skeletons': skeletons, 'sites': sites, 'shutdown': shutdown, 'panic_sites': panic_sites, 'walker': walker, 'slash_table': slash_table}
+    return {'apply_filters_skel': apply_filters_skel, 'decisions': decisions, 'run_skel': run_skel, 'link_socket': link_socket, 'session': session, 'defaults': defaults, 'skeletons': skeletons, 'sites': sites, 'shutdown': shutdown, 'panic_sites': panic_sites, 'walker': walker, 'slash_table': slash_table}
